@@ -136,8 +136,8 @@ def c17a(ck, prog):
     else:
         ck.ob(R, "leading-zeros", False, f.loc(hx.sp), "the hex size is not trimmed by position(..)")
     # (4) head flushed before the first item; chunk written and flushed per item
-    wa = f.calls_to(r"AsyncWriteExt::write_all$")
-    fl = f.calls_to(r"AsyncWriteExt::flush$")
+    wa = f.calls_to(r"(AsyncWriteExt|WriteExt)::write_all$")
+    fl = f.calls_to(r"(AsyncWriteExt|WriteExt)::flush$")
     arm = lambda c: paths.has_fact(f, prog, c.bb, lambda fa: fa.kind == "variant" and fa.allowed == {"Stream"}) is not None
     wa_s = [c for c in wa if arm(c)]
     fl_s = [c for c in fl if arm(c)]
